@@ -264,7 +264,7 @@ func genOps(t *rapid.T, o genOpts, topo *vfkit.Topo, genCfg func(t *rapid.T) *vh
 		}
 	}
 	addPod()
-	kinds := []string{"pod", "pod", "create", "create", "create", "create", "start", "start", "stop", "stop", "remove", "remove", "stoppod", "removepod", "sync", "recreate"}
+	kinds := []string{"pod", "pod", "create", "create", "create", "create", "start", "start", "stop", "stop", "remove", "remove", "stoppod", "removepod", "sync", "recreate", "removelive"}
 	if !o.NoUpdates {
 		kinds = append(kinds, "update", "update")
 		if o.UpdateHeavy {
